@@ -708,10 +708,27 @@ def case_history(c):
 V_NOISE = [(0.0, 1.0), (0.0, 0.5), (2.0, 3.0), (-1.0, 1e-3), (5.0, 0.0)]
 
 
+def _tap(stream):
+    """Record what get_samples returns (update_noise calls it internally): the deviation 'of what it drew'
+    is then observable without assuming which generator each noise source draws from."""
+    box = []
+    orig = stream.get_samples
+
+    def tapped(num_samples):
+        out = orig(num_samples)
+        box.append(np.array(out, copy=True))
+        return out
+    stream.get_samples = tapped
+    return box
+
+
 def _stream_samples(reqs, sources, n):
-    """Samples implied by the logged requests: one draw per noise source, in order of addition."""
+    """Samples implied by the logged requests: one draw per noise source, in order of addition.
+    Only decided when every source's draw was observed on the stream's own generator (a stream may give
+    additional sources their own generators -- which generator a source uses is not stated by the property)."""
+    reqs = [r for r in reqs if r.name in ('standard_normal', 'normal')]
     if len(reqs) != len(sources):
-        return None, 'generator asked %d times for %d noise sources' % (len(reqs), len(sources))
+        return None, None
     v = np.zeros(n)
     for r, (mu, sd) in zip(reqs, sources):
         if r.args is None or r.name not in ('standard_normal', 'normal'):
@@ -757,7 +774,10 @@ def case_stream(c):
     spy.take()
     got = np.array(st.get_samples(n), copy=True)
     ref, err = _stream_samples(spy.take(), sources, n)
-    if ref is None:
+    amb = 0
+    if ref is None and err is None:
+        amb += 1
+    elif ref is None:
         V('request', err, site='DataStream.get_samples')
     else:
         tol = 1e-12 * (np.abs(ref) + sum(abs(m) + abs(s) * 10 for m, s in sources) + 1e-300)
@@ -766,12 +786,14 @@ def case_stream(c):
               % float(np.abs(got - ref).max()), site='DataStream.get_samples')
     # update_noise replaces the estimate by the deviation of the samples it draws
     spy.take()
+    box = _tap(st)
     st.update_noise(stats_calc_num_samples=c['m'])
-    ref, err = _stream_samples(spy.take(), sources, c['m'])
+    del st.get_samples
     upd = 'n/a'
-    if ref is None:
-        V('request', 'update_noise: %s' % err, site='DataStream.update_noise')
+    if len(box) != 1 or box[0].shape != (c['m'],):
+        V('request', 'update_noise drew %s' % [b.shape for b in box], site='DataStream.update_noise')
     else:
+        ref = box[0]
         want = float(np.std(ref))
         if not close(st.noise_std, want, REL_EST, max(want, float(np.abs(ref).max()))):
             V('update_not_replacing', 'update_noise: noise_std=%r, deviation of the %d samples drawn %r (before: %r)'
@@ -782,7 +804,7 @@ def case_stream(c):
             w2 = np.sqrt(want ** 2 + 0.75 ** 2)
             if not close(st.noise_std, w2, REL_ID):
                 V('not_quadrature', 'add_noise after update_noise: noise_std=%r expected %r' % (float(st.noise_std), w2))
-    res = {'viol': viol, 'outcomes': ['stream/%d/%s/zero=%s' % (len(c['seq']), upd, own2 == 0.0)]}
+    res = {'viol': viol, 'outcomes': ['stream/%d/%s/zero=%s' % (len(c['seq']), upd, own2 == 0.0)], 'ambiguous': amb}
     if sum(1 for m, s in c['seq'] if s != 0) >= 2:
         res['nontrivial'] = [engine.sha(c)]
     return res
@@ -831,15 +853,15 @@ def _run_array(c, seq, checked, V, acc):
             own[key] = float(np.sqrt(own[key] ** 2 + sd ** 2))
             kind = 'add'
         else:
-            spies[key].take()
+            box = _tap(stream)
             stream.update_noise(stats_calc_num_samples=m)
-            ref, err = _stream_samples(spies[key].take(), src[key], m)
-            if ref is None:
+            del stream.get_samples
+            if len(box) != 1 or box[0].shape != (m,):
                 if fresh:
-                    V('request', '%s: update_noise: %s' % (tag, err), site='DataStream.update_noise')
+                    V('request', '%s: update_noise drew %s' % (tag, [b.shape for b in box]), site='DataStream.update_noise')
                 own[key] = float(stream.noise_std)
             else:
-                own[key] = float(np.std(ref))
+                own[key] = float(np.std(box[0]))
             kind = 'upd'
         if not fresh:
             continue
